@@ -189,6 +189,7 @@ func (s *clientSocket) registerSubEvents() {
 				return
 			}
 			s.state = clientSocketConnStateConnectPending
+			vhook.Event("csock.state", "s", s, "site", "open", "to", int(s.state))
 			s.onOpen()
 		}
 		errorFunc ManagerErrorFunc = func(err error) {
@@ -244,6 +245,7 @@ func (s *clientSocket) Connect() {
 	// If already connected, send a CONNECT packet.
 	if managerConnState == clientConnStateConnected && s.state != clientSocketConnStateConnectPending {
 		s.state = clientSocketConnStateConnectPending
+		vhook.Event("csock.state", "s", s, "site", "connect", "to", int(s.state))
 		s.onOpen()
 	}
 }
@@ -409,6 +411,7 @@ func (s *clientSocket) onConnect(_ *parser.PacketHeader, decode parser.Decode) {
 
 	s.stateMu.Lock()
 	s.state = clientSocketConnStateConnected
+	vhook.Event("csock.state", "s", s, "site", "onconnect", "to", int(s.state))
 	s.stateMu.Unlock()
 
 	s.debug.Log("Socket connected")
@@ -878,6 +881,7 @@ func (s *clientSocket) _sendBuffers(volatile, forceSend bool, ackID *uint64, buf
 		sendImmediately := s.state == clientSocketConnStateConnected || s.state == clientSocketConnStateConnectPending
 		s.stateMu.RUnlock()
 		if sendImmediately || forceSend {
+			vhook.Event("csock.send", "s", s, "force", forceSend, "pk", packets)
 			s.manager.packet(packets...)
 		} else if !volatile {
 			s.sendBufferMu.Lock()
@@ -892,6 +896,7 @@ func (s *clientSocket) _sendBuffers(volatile, forceSend bool, ackID *uint64, buf
 			vhook.Event("sendbuf.append", "s", s, "id", ackID, "n", len(buffers), "buf", s.sendBuffer)
 			s.sendBufferMu.Unlock()
 		} else {
+			vhook.Event("csock.drop", "s", s, "pk", packets)
 			s.debug.Log("Packet is discarded")
 		}
 	}
@@ -915,6 +920,7 @@ func (s *clientSocket) onClose(reason Reason) {
 
 	s.stateMu.Lock()
 	s.state = clientSocketConnStateDisconnected
+	vhook.Event("csock.state", "s", s, "site", "onclose", "to", int(s.state), "reason", string(reason))
 	s.stateMu.Unlock()
 	s.setID("")
 	s.disconnectHandlers.forEach(func(handler *ClientSocketDisconnectFunc) { (*handler)(reason) }, true)
